@@ -2168,6 +2168,14 @@ func ruleSwapAfterRotate(r *Report) {
 	o := &order{r, r.P}
 	rot := CallsIn(fn, Suffix("WriteAheadLogI.Rotate", "WriteAheadLogAppendI.Rotate", "Appender.Rotate"))
 	swaps := CallsIn(fn, Keys("simpledb.swapMemstore"))
+	// the inline form of the swap: a store into the memStore field of the database
+	eachInstr(fn, func(s Site) {
+		if st, ok := s.Instr.(*ssa.Store); ok {
+			if t, f, _, ok := fieldAddrName(st.Addr); ok && f == "memStore" && strings.HasSuffix(t, "simpledb.DB") {
+				swaps = append(swaps, s)
+			}
+		}
+	})
 	key := rule + "/simpledb.DB.rotateWalAndFlushMemstore"
 	if len(rot) == 0 || len(swaps) == 0 {
 		r.Unk(rule, key, fn.Pos(), "rotation or swap not found")
